@@ -29,6 +29,14 @@ Families
              (None, hi) — on every relation and both kinds (fixed grid); the random families draw a form for every
              comparison constraint as well (the given numbers are valid bounds, from the truth table of the polynomial)
 
+  nested     constraint polynomials with NESTED-TERM structure under the default `bounds=None`: the variable set of one term
+             is contained in the variable sets of two or three terms of the opposite sign (x - xy - xz, xy + xz - x,
+             xy - xyz - xyw, with weights 1..2, optionally a further unrelated term / an offset), every relation, both
+             kinds, log_trick both ways; plus the same shapes with user-supplied bounds (a minority).  The library's own
+             `approximate_pubo_extrema` decides from such a polynomial whether a constraint is always / never satisfied,
+             whether slack ancillas are needed and how many, so a "bound" that is not one (e.g. one that credits the
+             nested term once per containing term) removes the slack or the whole penalty.  A fixed grid (2 shapes x 2
+             signs x 6 relations x 2 kinds) runs on every seed
 Correspondence (model = lean/Qv/Model/Workflow.lean through op "wf", plus ops "c04sol", "cons", "c04conv"):
   build      PCBO: the state after PCBO(objective) and after every constraint call (terms, num_ancillas, recorded
              constraints, is_solution_valid table) against the model's own composition of C02/C06
@@ -60,6 +68,9 @@ RULE = ("objective: 2..5 terms of degree <= 3 over n in 2..4 variables (every va
         "+= 0, subs({}), constructor) between 2..3 mostly slack-introducing constraints; every comparison constraint draws one "
         "of the documented forms of bounds (absent, (None,None), (lo,hi) exact/loose, (lo,None), (None,hi)); fixed grids: "
         "8 maintenance calls x 2 kinds x 2 relation pairs, 6 bounds forms x 6 relations x 2 kinds. "
+        "family nested: constraint polynomials in which one term's variable set lies inside 2..3 terms of the opposite sign "
+        "(degree 2..3), default bounds (4 in 5) or given bounds, all relations, both kinds; fixed grid 2 shapes x 2 signs x "
+        "6 relations x 2 kinds. "
         "non-trivial = at least one constraint is violated by some assignment and the model has >= 1 penalty term; "
         "distinct = distinct case JSON")
 ASSUMPTIONS = ["integer-valued constraint polynomials; coefficients int / Fraction (PCSO conversions divide by 2: dyadic floats, exact)",
@@ -329,6 +340,64 @@ def gen_slack(rng, n, spin):
     st = {"t": "cmp", "rel": rng.choice(["le", "le", "ge", "ge", "lt", "gt", "ne"]), "P": P, "lt": rng.random() < 0.5,
           "lo": None, "hi": None, "sup": False}
     return set_bounds(rng, st, n, spin)
+
+def gen_nested_cmp(rng, n, spin, rel=None, shape=None, sign=None, plain=False):
+    """a comparison constraint whose polynomial has nested-term structure: the variable set of the `base` term is
+    contained in the variable sets of 2..3 `super` terms, all of the opposite sign (x - xy - xz; xy + xz - x;
+    xy - xyz - xyw ...).  Default bounds unless drawn otherwise (the library then bounds P itself)."""
+    nb = shape if shape is not None else (2 if (n >= 4 and rng.random() < 0.3) else 1)
+    base = sorted(rng.sample(range(n), nb))
+    others = [i for i in range(n) if i not in base]
+    ext = rng.sample(others, min(len(others), rng.choice([2, 2, 3])))
+    s = sign if sign is not None else rng.choice([1, -1])
+    mag = (lambda: 1) if plain else (lambda: rng.choice([1, 1, 1, 2]))
+    P = [[list(base), str(s * mag())]] + [[sorted(base + [e]), str(-s * mag())] for e in ext]
+    if not plain:
+        r = rng.random()
+        rest = [i for i in others if i not in ext]
+        if r < 0.25 and rest:
+            P.append([[rng.choice(rest)], str(rng.choice([-1, 1]))])
+        elif r < 0.45:
+            P.append([[], str(rng.choice([-1, 1]))])
+        if rng.random() < 0.5:
+            rng.shuffle(P)
+    st = {"t": "cmp", "rel": rel or rng.choice(RELS), "P": P, "lt": rng.random() < 0.5, "lo": None, "hi": None, "sup": False}
+    return set_bounds(rng, st, n, spin, "none" if (plain or rng.random() < 0.8) else None)
+
+def gen_nested(rng):
+    """a workflow whose first constraint has nested-term structure; sometimes a second ordinary constraint"""
+    for _ in range(300):
+        kind = "PCBO" if rng.random() < 0.6 else "PCSO"
+        spin = kind == "PCSO"
+        n = rng.choice([3, 3, 4])
+        steps = [gen_nested_cmp(rng, n, spin)]
+        if rng.random() < 0.3:
+            steps.insert(rng.randrange(2), gen_logic(rng, n) if (not spin and rng.random() < 0.4) else gen_cmp(rng, n, spin))
+        case = finish_case(rng, {"family": "nested", "kind": kind, "n": n, "obj": gen_obj(rng, n), "steps": steps,
+                                 "labels": rng.choice(Labels.STYLES_X)}, big=rng.random() < 0.9)
+        if case:
+            return case
+    raise Infra("generator found no feasible nested workflow")
+
+def fixed_nested():
+    """the two basic nested shapes (a variable / a pair inside two products) x both signs x every relation x both kinds,
+    unit coefficients, default bounds, on fixed objectives (the same cases on every seed)"""
+    import random
+    rng = random.Random(9)
+    out = []
+    objs = {3: [[[0], "1"], [[1], "1"], [[2], "1"], [[0, 1], "1/2"]],
+            4: [[[0], "1"], [[1], "-1"], [[2], "1"], [[3], "1"], [[0, 3], "1/2"]]}
+    for kind in ("PCBO", "PCSO"):
+        spin = kind == "PCSO"
+        for shape, n in ((1, 3), (2, 4)):
+            for sign in (1, -1):
+                for rel in RELS:
+                    st = gen_nested_cmp(rng, n, spin, rel=rel, shape=shape, sign=sign, plain=True)
+                    case = finish_case(rng, {"family": "nested", "kind": kind, "n": n, "obj": objs[n], "labels": "str",
+                                             "steps": [st]})
+                    if case:
+                        out.append(case)
+    return out
 
 def finish_case(rng, case, big=True):
     """feasibility, weights (every weight > max f - min f when `big`), size limit; None when the case is rejected"""
@@ -1090,6 +1159,8 @@ def check(ctx):
     cases += [gen_scenario(rng) for _ in range(ctx.scale(50, 500))]
     cases += fixed_histories()
     cases += [gen_history(rng) for _ in range(ctx.scale(100, 1000))]
+    cases += fixed_nested()
+    cases += [gen_nested(rng) for _ in range(ctx.scale(60, 600))]
     process(ctx, cases)
     if ctx.diffs and not ctx.violations:
         search(ctx)
@@ -1109,6 +1180,7 @@ def search(ctx):
                 if key not in seen:
                     seen.add(key); extra.append(v)
     extra += [gen_case(ctx.rng, "big") for _ in range(1200)]
+    extra += [gen_nested(ctx.rng) for _ in range(300)]
     for c in extra:
         xs, f, feas = semantics(c)
         if not any(feas.values()):
